@@ -173,6 +173,32 @@ pub fn process_cpu_ticks() -> u64 {
     total
 }
 
+/// Number of threads of this process that are runnable or in uninterruptible (disk) wait right now. A deadlocked or
+/// orphaned call has none: everybody sleeps on a futex. A process that is merely starved of CPU or stuck behind slow
+/// I/O has some, and must not be mistaken for a hang.
+pub fn busy_threads() -> usize {
+    let me = std::thread::current().id();
+    let _ = me;
+    let mut n = 0;
+    let own_tid = std::fs::read_link("/proc/thread-self").ok().and_then(|p| p.file_name().map(|s| s.to_string_lossy().to_string()));
+    if let Ok(rd) = std::fs::read_dir("/proc/self/task") {
+        for e in rd.flatten() {
+            if Some(e.file_name().to_string_lossy().to_string()) == own_tid {
+                continue; // the monitor thread itself is running while it looks
+            }
+            if let Ok(s) = std::fs::read_to_string(e.path().join("stat")) {
+                if let Some(pos) = s.rfind(')') {
+                    let state = s[pos + 1..].split_whitespace().next().unwrap_or("");
+                    if state == "R" || state == "D" {
+                        n += 1;
+                    }
+                }
+            }
+        }
+    }
+    n
+}
+
 pub fn thread_count() -> usize {
     std::fs::read_dir("/proc/self/task").map(|d| d.count()).unwrap_or(0)
 }
@@ -235,7 +261,7 @@ where
             }
             Err(mpsc::RecvTimeoutError::Timeout) => {
                 let t = process_cpu_ticks();
-                if t.saturating_sub(last_ticks) <= 1 && EXTERNAL_WAITS.load(Ordering::SeqCst) == 0 {
+                if t.saturating_sub(last_ticks) <= 1 && EXTERNAL_WAITS.load(Ordering::SeqCst) == 0 && busy_threads() == 0 {
                     idle_samples += 1;
                 } else {
                     idle_samples = 0;
@@ -320,7 +346,10 @@ where
     if !finished {
         let blocked = op.get();
         let dead = panics.iter().filter(|p| p.in_repo()).map(|p| p.site()).next();
-        if hung {
+        if hung && blocked.is_empty() && dead.is_none() {
+            // nothing of the database was being called: the stall is in the harness or the machine (slow I/O), not a verdict
+            out.inconclusive.push("case made no CPU progress for 8s outside any database call (harness or I/O stall)".into());
+        } else if hung {
             out.failures.push(Failure::new(
                 "hang",
                 &dead.clone().unwrap_or_else(|| "no-progress".into()),
